@@ -139,6 +139,7 @@ def main(argv=None):
     ap.add_argument('--replay', default=None)
     ap.add_argument('--no-evidence', action='store_true')
     ap.add_argument('--cap', type=float, default=None, help='development: cap every per-condition timeout')
+    ap.add_argument('--list', action='store_true', help='development: print the job list and the worst-case budget, run nothing')
     ap.add_argument('--part', default=None, help='development: only partitions whose precondition text contains this')
     a = ap.parse_args(argv)
     prop = a.prop.upper()
@@ -194,6 +195,10 @@ def main(argv=None):
         print('HARNESS-ERROR property=%s no obligations selected' % prop)
         return 2
 
+    if a.list:
+        tot = sum((j.ob['cond_timeout'][tier] if j.kind != 'enginea' else j.ob['hard_timeout'][tier]) for j in jobs)
+        print('LIST property=%s tier=%s jobs=%d worst_case_cpu_s=%d worst_case_wall_s(16)=%d' % (prop, tier, len(jobs), tot, tot / 16))
+        return 0
     # longest first
     jobs.sort(key=lambda j: -(j.ob['cond_timeout'][tier] if j.kind != 'enginea' else j.ob['hard_timeout'][tier]))
     with cf.ThreadPoolExecutor(max_workers=a.jobs) as ex:
